@@ -308,6 +308,8 @@ class StoreSim:
                     return False, False
             return True, False
         f = sess.file
+        if not f.exists and not f.assoc and sess.kind == 'create':
+            return True, False   # the first successful addition decides the field sets
         if sorted(fs) != sorted(f.all_fs):
             return False, False
         if f.ident is not None and f.ident != has_id:
@@ -378,6 +380,9 @@ class StoreSim:
         else:
             f = sess.file
             if first and not f.exists:
+                if not f.assoc:
+                    f.base_fs = list(spec.get('fs', []))
+                    sess.visible_fs = f.all_fs
                 f.exists = True
                 f.ident = has_id
                 used = set()
@@ -711,7 +716,11 @@ class StoreSim:
                 self._note_read(sess, i, served)
             if f.ident:
                 for fid, i in f.ids().items():
-                    t = store.get_flight(fid)
+                    try:
+                        t = store.get_flight(fid)
+                    except Exception as e:  # noqa: BLE001
+                        self.fail('lookup.raised', f'fsck: get_flight({fid}) raised {type(e).__name__}: {e}',
+                                  sess, stale=False, present=True)
                     if t is None:
                         self.fail('lookup.missing', f'fsck: id {fid} not found', sess, stale=False)
                     self._check_read(sess, i, t, 'lookup', via='lookup')
@@ -742,7 +751,7 @@ class StoreSim:
                 return None
             if f.ident is not None and f.ident != has_id:
                 return None
-            if not f.exists and fs != sorted(f.all_fs):
+            if not f.exists and f.assoc and fs != sorted(f.all_fs):
                 return None
         elif kind in ('extra_fieldset', 'missing_fieldset'):
             if not f.exists or fs == sorted(f.all_fs) or (f.ident is not None and f.ident != has_id):
